@@ -238,6 +238,8 @@ def write_replay(prop, pid: str, seed: int, case: dict, min_choices: list[int],
 
 def write_evidence(pid: str, tier: str, seed: int, level: str, coverage: dict,
                    assumptions: list[str], wall: float, violations: int) -> None:
+    if os.environ.get("VERIF_NO_EVIDENCE"):   # sensitivity runs against scratch trees
+        return
     os.makedirs(EVIDENCE_DIR, exist_ok=True)
     doc = {"property_id": pid, "tier": tier, "seed": seed, "level": level,
            "coverage": coverage, "assumptions": assumptions,
